@@ -117,7 +117,10 @@ def _run_config(prop, cfg, tag, simulate=None):
             continue
         seen_h.add((pred, key))
         pre = expect[key[:-1]][2] if len(key) > 1 and key[:-1] in expect else None
-        cands.append((pred, key, expect[key][0], "render", pre, detail))
+        outs_h = expect[key][0]
+        if "template_out" in detail:
+            outs_h = tuple(outs_h[:-1]) + (detail["template_out"],)
+        cands.append((pred, key, outs_h, "hook", pre, detail))
     bad_prefix = set(tuple(m["h"]) for m in mism)
     # model-level violations on states where the implementation agrees with the model
     for key, ex in expect.items():
